@@ -132,7 +132,7 @@ def ext_community(rng, kind=None):
     if k in ('rt2', 'ro2'):
         return dict(kind=k, asn=rng.choice([65536, 131072, 4200000000, 4294967295, 1, 65535]), an=rng.choice(U16))
     if k in ('color', 'encap'):
-        return dict(kind=k, value=rng.choice(U32) if k == 'color' else rng.choice([0, 1, 8, 11, 65535, 4294967295]))
+        return dict(kind=k, value=rng.choice(U32) if k == 'color' else rng.choice([0, 1, 8, 11, 255, 256, 65535]))
     if k == 'redirect-nh':
         return dict(kind=k, ip=ipv4(rng), copy=rng.choice([0, 1]))
     if k == 'traffic-rate':
